@@ -212,6 +212,7 @@ func c14Setup(c *Ctx) {
 // ---- W1: many RPCs on one transcoder ----------------------------------------------------
 
 type c14RPC struct {
+	gen int // index used in this RPC's markers (scenarios that cannot be generated are skipped, so it is not the slice index)
 	s   *Scenario
 	raw []byte
 	ch  []int
@@ -269,7 +270,7 @@ func c14W1(c *Ctx, i int, r *rand.Rand, modeB bool) {
 		if err != nil {
 			continue
 		}
-		p := &c14RPC{s: s, raw: built.Raw, ch: chunkPlan(r)}
+		p := &c14RPC{gen: k, s: s, raw: built.Raw, ch: chunkPlan(r)}
 		switch r.IntN(10) {
 		case 0:
 			p.raw = mutateBody(r, built.Raw)
@@ -294,10 +295,10 @@ func c14W1(c *Ctx, i int, r *rand.Rand, modeB bool) {
 		rpcs = append(rpcs, p)
 	}
 	allMarkers := map[string]int{}
-	for k, p := range rpcs {
+	for _, p := range rpcs {
 		for _, m := range append(append([]proto.Message{}, p.s.Req.Msgs...), p.s.Script.Msgs...) {
 			if mk := getMarker(m); strings.HasPrefix(mk, fmt.Sprintf("r%dk", i)) {
-				allMarkers[mk] = k // only the unique markers this round generated
+				allMarkers[mk] = p.gen // only the unique markers this round generated
 			}
 		}
 	}
@@ -379,11 +380,15 @@ func c14W1(c *Ctx, i int, r *rand.Rand, modeB bool) {
 			c.Violate(i, "messages-differ-under-concurrency", detail())
 			continue
 		}
-		prefix := fmt.Sprintf("r%dk%d/", i, k)
+		prefix := fmt.Sprintf("r%dk%d/", i, rpcs[k].gen)
+		alone := map[string]bool{}
+		for _, mk := range markersOf(solo[k]) {
+			alone[mk] = true // (a bit flipped in this RPC's own body can turn its marker into another RPC's: seen alone as well)
+		}
 		for _, mk := range markersOf(conc[k]) {
 			// foreign = a marker that really belongs to another RPC of this round (a corrupted own marker is not)
-			if owner, known := allMarkers[mk]; known && owner != k && !strings.HasPrefix(mk, prefix) {
-				c.Violate(i, "foreign-marker-in-rpc", fmt.Sprintf("marker %q found in RPC %s\n%s", mk, prefix, detail()))
+			if owner, known := allMarkers[mk]; known && owner != rpcs[k].gen && !strings.HasPrefix(mk, prefix) && !alone[mk] {
+				c.Violate(i, "foreign-marker-in-rpc", fmt.Sprintf("marker %q found in RPC %s (slice index %d; markers observed alone %q, concurrently %q)\n%s", mk, prefix, k, markersOf(solo[k]), markersOf(conc[k]), detail()))
 			}
 		}
 	}
